@@ -64,6 +64,9 @@ type Program struct {
 	NumInstrs  int
 
 	ctrl map[*ssa.BasicBlock][]ctrlEdge // cache of the branch edges dominating a block
+	// countOfTok: calls strings.Count(s, sep) whose value is len(strings.Split(s, sep)) - 1 for
+	// the one tokeniser call of the validator (same SSA operand, same non-empty constant separator)
+	countOfTok map[*ssa.Call]bool
 }
 
 // Load loads dir under cfg.  Any type error is returned as an error: an
@@ -120,7 +123,7 @@ func Load(dir string, cfg Config) (*Program, error) {
 	if p.ModPath == "" {
 		return nil, fmt.Errorf("load %s: cannot determine module path", cfg)
 	}
-	prog, _ := ssautil.AllPackages(pkgs, ssa.BuilderMode(0))
+	prog, _ := ssautil.AllPackages(pkgs, ssa.InstantiateGenerics)
 	prog.Build()
 	p.SSA = prog
 	p.Fset = pkgs[0].Fset
@@ -180,6 +183,14 @@ func Load(dir string, cfg Config) (*Program, error) {
 		}
 		return nil
 	})
+	// instances of generic functions (built with their type arguments substituted) belong to
+	// no package in go/ssa; for this analysis they are functions of the package that declares
+	// the generic function, with an ordinary body
+	for fn := range ssautil.AllFunctions(prog) {
+		if fn.Pkg == nil && fn.Origin() != nil && fn.Origin() != fn && fn.Origin().Pkg != nil {
+			fn.Pkg = fn.Origin().Pkg
+		}
+	}
 	for fn := range ssautil.AllFunctions(prog) {
 		if fn.Pkg == nil || !p.InModule(fn.Pkg) {
 			continue
